@@ -124,12 +124,18 @@ class Ctx:
         if z3.is_false(cond): return False
         return self.choose([cond, z3.Not(cond)], label) == 0
 
-    def concretize_int(self, v, lo, hi, label="idx"):
-        """fork v over the concrete values lo..hi-1"""
+    def concretize_int(self, v, lo, hi, label="idx", beyond="value"):
+        """fork v over the concrete values lo..hi-1.  Values at or above hi are not dropped: they form one more branch, which
+        yields `hi` itself (callers pass hi = one more than the largest value they distinguish, e.g. len + 1 for an index,
+        and treat everything >= len alike) or raises Unsupported when beyond="unsupported"."""
         if isinstance(v, int): return v
         v = z3.simplify(v)
         if z3.is_int_value(v): return v.as_long()
-        i = self.choose([v == k for k in range(lo, hi)], label)
+        i = self.choose([v == k for k in range(lo, hi)] + [v >= hi, v < lo], label)
+        if i == hi - lo:
+            if beyond == "unsupported": raise Unsupported(f"{label}: value beyond the {hi - lo} cases enumerated")
+            return hi
+        if i == hi - lo + 1: raise Unsupported(f"{label}: value below {lo}")
         return lo + i
 
     # ------------------------------------------------------------ strings (union-find over abstract string classes)
